@@ -76,10 +76,10 @@ def t4_conds(mode, timeout=300, quick=False):
         for lo, hi in parts(nk, 4):
             out.append(Cond("t4-script%d-edit%02d_%02d" % (sc, lo, hi), "harness/c01gen.py", "t4",
                             env={"T1_MODE": mode, "T4_SCRIPT": sc, "T4_KLO": lo, "T4_KHI": hi,
-                                 "T4_FREEZE": "eol,comment" if quick else ""}, timeout=timeout))
+                                 "T4_FREEZE": "eol,comment,tail" if quick else ""}, timeout=timeout))
     return out
 
 
-T4_BOUND = ("5 valid corpus scripts using every supported command, tag, match type, list / multi-line form, nesting, "
+T4_BOUND = ("7 valid corpus scripts using every supported command, tag, match type, list / multi-line form, nesting, "
             "elsif/else, anyof/allof/not; unedited and with every single edit (delete / duplicate / swap-with-next / "
-            "replace by one of 12 tokens at every position) x LF/CRLF x comment placement (quick tier: LF, no comment) x require written as one list / one command per extension / two lists")
+            "replace by one of 12 tokens at every position) x LF/CRLF x comment placement x final line end / none / trailing comment without line end (quick tier: LF, no comment, final line end) x require written as one list / one command per extension / two lists")
